@@ -29,7 +29,10 @@ def ensure_wt():
     if not os.path.isdir(WT):
         rc, out = sh(f"git -C /repo worktree add --detach {WT}")
         assert rc == 0, out
-    sh(f"git -C {WT} checkout -q --detach $(git -C /repo rev-parse HEAD) && git -C {WT} checkout -q -- . && git -C {WT} clean -fdq -e target")
+    # reset first (a leftover patch must never block the move to the current HEAD), then move, then verify
+    rc, out = sh(f"git -C {WT} reset -q --hard && git -C {WT} clean -fdq -e target && git -C {WT} checkout -q --detach $(git -C /repo rev-parse HEAD) && git -C {WT} status --short | grep -v '^??' | wc -l && git -C {WT} rev-parse HEAD && git -C /repo rev-parse HEAD")
+    lines = out.strip().splitlines()
+    assert rc == 0 and len(lines) >= 3 and lines[-3].strip() == '0' and lines[-2] == lines[-1], f"worktree {WT} is not a clean checkout of /repo HEAD: {out}"
 
 def parse_run(seed):
     """find the demo test file(s), the crate they go to and the cargo test command"""
